@@ -3,15 +3,24 @@
 package transmit
 
 import (
+	"bytes"
+	"errors"
+	"io"
+	"net/http"
+	"net/url"
 	"strconv"
+	"sync"
 
+	"github.com/jonboulle/clockwork"
 	"github.com/sourcegraph/conc/pool"
 
+	"github.com/honeycombio/refinery/logger"
+	"github.com/honeycombio/refinery/metrics"
 	"github.com/honeycombio/refinery/types"
 )
 
 // Accessors for the C26 harness (vh_transmit).  Unexported names touched: apiMaxBatchSize,
-// apiMaxEventSize, batchedEvent, buildRequestURL, DirectTransmission.dispatchPool,
+// apiMaxEventSize, buildRequestURL, sendBatch (batchedEvent and its fields are NOT named), DirectTransmission.dispatchPool,
 // maxConcurrentBatches, DirectTransmission.batchMutex, DirectTransmission.eventBatches, eventBatch (not transmitKey).
 
 // VerifTransmitFacts returns the size limits compiled into the package.
@@ -22,15 +31,99 @@ func VerifTransmitFacts() map[string]string {
 	}
 }
 
+// A scratch transmission whose transport records the request body and fails: whatever sendBatch
+// would post is obtained from sendBatch itself, without naming the per-event struct or its fields.
+var (
+	probeMu   sync.Mutex
+	probeBody []byte
+	probeDT   *DirectTransmission
+	probeLen  = map[[2]int64]int{} // (timestamp ns, sample rate) -> bytes in front of the payload
+)
+
+func probeSend(ev *types.Event) []byte {
+	if probeDT == nil {
+		tr := &http.Transport{Proxy: func(req *http.Request) (*url.URL, error) {
+			if req.GetBody != nil {
+				if rc, err := req.GetBody(); err == nil {
+					probeBody, _ = io.ReadAll(rc)
+					rc.Close()
+				}
+			}
+			return nil, errors.New("verif probe: not sent")
+		}}
+		probeDT = NewDirectTransmission(types.TransmitTypePeer, tr, 1, 0, 0, false, nil)
+		probeDT.Logger = &logger.NullLogger{}
+		probeDT.Metrics = &metrics.NullMetrics{}
+		probeDT.Clock = clockwork.NewRealClock()
+		probeDT.httpClient = &http.Client{Transport: tr}
+	}
+	pe := *ev
+	pe.APIHost, pe.APIKey, pe.Dataset = "http://probe.invalid", "probe", "probe"
+	probeBody = nil
+	probeDT.sendBatch([]*types.Event{&pe})
+	return probeBody
+}
+
+// verifPrefix returns the bytes sendBatch puts in front of an event's payload in a batch of one
+// (array header, time, sample rate, the "data" key), measured with a tiny payload.
+func verifPrefix(ev *types.Event) ([]byte, error) {
+	pe := *ev
+	pe.Data = types.NewPayload(nil, map[string]any{"p": int64(1)})
+	small, err := pe.Data.MarshalMsg(nil)
+	if err != nil {
+		return nil, err
+	}
+	body := probeSend(&pe)
+	if body == nil || !bytes.HasSuffix(body, small) {
+		return nil, errors.New("verif probe: the payload is not the tail of the posted event")
+	}
+	return body[:len(body)-len(small)], nil
+}
+
+// VerifTransmitPackOne is the (uncompressed) body sendBatch posts for a batch holding just ev, taken
+// from sendBatch itself.  An event sendBatch refuses (over apiMaxEventSize) is composed from the
+// prefix sendBatch writes for the same time and sample rate and the event's own payload bytes.
+func VerifTransmitPackOne(ev *types.Event) ([]byte, error) {
+	probeMu.Lock()
+	defer probeMu.Unlock()
+	payload, err := ev.Data.MarshalMsg(nil)
+	if err != nil {
+		return nil, err
+	}
+	if len(payload) < apiMaxEventSize/2 {
+		if body := probeSend(ev); body != nil {
+			return body, nil
+		}
+	}
+	prefix, err := verifPrefix(ev)
+	if err != nil {
+		return nil, err
+	}
+	return append(append([]byte(nil), prefix...), payload...), nil
+}
+
 // VerifTransmitMarshalSize is the number of bytes sendBatch's MarshalMsg appends for this event
-// (what it compares with apiMaxEventSize), or the marshalling error.
+// (what it compares with apiMaxEventSize), or the marshalling error: the event's payload plus what
+// sendBatch writes in front of it for this time and sample rate (measured once per pair, through
+// sendBatch), minus the one-byte array header of a batch of one.
 func VerifTransmitMarshalSize(ev *types.Event) (int, error) {
-	pe := batchedEvent{time: ev.Timestamp, sampleRate: int64(ev.SampleRate), data: ev.Data}
-	b, err := pe.MarshalMsg(nil)
+	probeMu.Lock()
+	defer probeMu.Unlock()
+	payload, err := ev.Data.MarshalMsg(nil)
 	if err != nil {
 		return 0, err
 	}
-	return len(b), nil
+	k := [2]int64{ev.Timestamp.UnixNano(), int64(ev.SampleRate)}
+	n, ok := probeLen[k]
+	if !ok {
+		prefix, err := verifPrefix(ev)
+		if err != nil {
+			return 0, err
+		}
+		n = len(prefix) - 1
+		probeLen[k] = n
+	}
+	return n + len(payload), nil
 }
 
 // VerifTransmitBuildURL exposes buildRequestURL.
